@@ -541,6 +541,9 @@ func GenerateFieldDeclaration(p Printer, field *protogen.Field) {
 	//nolint:gocritic // if-else chain is clearer than switch for distinct boolean checks
 	if annotations.IsNullableField(field) {
 		p("  %s: %s | null;", jsonName, tsType)
+	} else if annotations.GetEmptyBehavior(field) == http.EmptyBehavior_EMPTY_BEHAVIOR_NULL {
+		// An empty message is sent as null
+		p("  %s?: %s | null;", jsonName, tsType)
 	} else if IsOptionalField(field) {
 		p("  %s?: %s;", jsonName, tsType)
 	} else {
